@@ -167,7 +167,7 @@ prop(
 
 prop(
     "C18",
-    [panics.rule_panic_ledger, panics.rule_closed_sets, panics.rule_termination, fmtparse.rule_peg_combinators, fmtparse.rule_peg_tables, fmtdec.rule_traversal, split.rule_scanner_progress, idx.rule_idx_space, rawid.rule_raw_id],
+    [panics.rule_panic_ledger, panics.rule_extern_preconditions, panics.rule_closed_sets, panics.rule_termination, fmtparse.rule_peg_combinators, fmtparse.rule_peg_tables, fmtdec.rule_traversal, split.rule_scanner_progress, idx.rule_idx_space, rawid.rule_raw_id],
     explanation="Every panic-capable site rustc sees in the crate (all features) is matched against a ledger: diagnostic, input-guaranteed, guarded (the guard is re-recognised from the conditions holding at the site on this run) or audited with a reason; "
     "closed sets behind unimplemented!/unreachable! are re-derived from the create_derive! table and the syn sources; recursive SCCs of the resolved call graph need a termination argument; parser loops progress.",
     assumptions=["panics inside syn / quote / proc-macro2 for token streams the compiler never produces are out of scope", "stack depth as a number is not bounded, only recursion on strict sub-terms"],
